@@ -1,10 +1,36 @@
 //! implrun: executes case files against the real cstree (path dependency on /repo/cstree).
 //! One case per input line, one canonical result line per case on stdout.
 mod builder_cases;
+mod intern_cases;
 mod interners;
 mod syn;
 
+use std::alloc::{GlobalAlloc, Layout, System};
 use std::io::{BufRead, Write};
+use std::sync::atomic::{AtomicIsize, Ordering};
+
+/// Counting allocator: live bytes (allocated minus freed), for the leak / double-free checks.
+struct Counting;
+static LIVE: AtomicIsize = AtomicIsize::new(0);
+unsafe impl GlobalAlloc for Counting {
+    unsafe fn alloc(&self, l: Layout) -> *mut u8 {
+        LIVE.fetch_add(l.size() as isize, Ordering::Relaxed);
+        System.alloc(l)
+    }
+    unsafe fn dealloc(&self, p: *mut u8, l: Layout) {
+        LIVE.fetch_sub(l.size() as isize, Ordering::Relaxed);
+        System.dealloc(p, l)
+    }
+    unsafe fn realloc(&self, p: *mut u8, l: Layout, n: usize) -> *mut u8 {
+        LIVE.fetch_add(n as isize - l.size() as isize, Ordering::Relaxed);
+        System.realloc(p, l, n)
+    }
+}
+#[global_allocator]
+static ALLOC: Counting = Counting;
+pub fn live_bytes() -> isize {
+    LIVE.load(Ordering::Relaxed)
+}
 
 fn run_line(line: &str) -> String {
     let mut it = line.split(' ').filter(|s| !s.is_empty());
@@ -13,6 +39,15 @@ fn run_line(line: &str) -> String {
     match kind {
         "B" => builder_cases::run_case(&args),
         "H" => builder_cases::run_history(&args),
+        "I" => intern_cases::run_case(&args),
+        "P" => intern_cases::run_concurrent(&args),
+        "L" => {
+            // same as H, plus: all memory of the history (trees, cache, interner) is released exactly once
+            let before = live_bytes();
+            let s = builder_cases::run_history(&args);
+            let delta = live_bytes() - before - s.capacity() as isize;
+            format!("{s} || leak {delta}")
+        }
         _ => format!("?unknown-case-kind {kind}"),
     }
 }
